@@ -29,7 +29,7 @@ def stSection (c : Cfg) (s : St) (i : Nat) (f : Option Nat) (mis : Nat) : St :=
     if mis' > 1 then setT { s0 with watchers := s0.watchers - 1 } i .exited
     else setT s0 i (.sleeping (s0.now + c.idle) mis' true)
   | some (id, fireT) =>
-    if s0.now > fireT then
+    if s0.now ≥ fireT then
       let heap' := s0.heap.filter (·.1 != id)
       let s1 : St := { s0 with heap := heap' }
       let spawn := match headOf heap' with
@@ -104,7 +104,7 @@ def pStuck (_c : Cfg) (s : St) : Bool :=
   match headOf s.heap with
   | none => true
   | some (_, fireT) =>
-    if fireT < s.now then
+    if fireT ≤ s.now then
       s.threads.any isTop || s.threads.any (fun p => match p with
         | .sleeping d _ _ => d ≤ s.now || 0 < s.tokens | _ => false)
     else true
@@ -185,12 +185,18 @@ end Explore
 open Explore in
 #eval report (explore { maxWorkers := 2, idle := 2 } { depth := 14 } allProps)
 
-/- deeper / other configurations (run 2026-09-26, ~80 s in the interpreter; same verdicts:
-   someone_responsible violated at depth 14, no_stuck_state at depth 15, watchers_exact, V1, V2, V3 hold):
+/- deeper / other configurations, repaired due test `now ≥ fireT` (run 2026-09-26; every property,
+   including someone_responsible and no_stuck_state (`fireT ≤ now`), holds on all visited states):
 open Explore in
-#eval report (explore { maxWorkers := 2, idle := 2 } { depth := 18 } allProps)                                -- 650544 states
+#eval report (explore { maxWorkers := 2, idle := 2 } { depth := 14 } allProps)                                -- 154213 states
 open Explore in
-#eval report (explore { maxWorkers := 3, idle := 1 } { depth := 16, fireSpan := 2 } allProps)                 -- 292808 states
+#eval report (explore { maxWorkers := 2, idle := 2 } { depth := 18 } allProps)                                -- 400481 states
 open Explore in
-#eval report (explore { maxWorkers := 2, idle := 3 } { depth := 16, maxCancels := 2, fireSpan := 3 } allProps) -- 316719 states
+#eval report (explore { maxWorkers := 3, idle := 1 } { depth := 16, fireSpan := 2 } allProps)                 -- 207596 states
+open Explore in
+#eval report (explore { maxWorkers := 2, idle := 3 } { depth := 16, maxCancels := 2, fireSpan := 3 } allProps) -- 202359 states
+open Explore in
+#eval report (explore { maxWorkers := 2, idle := 1 } { depth := 16, maxCancels := 2, fireSpan := 3 } allProps) -- 213631 states
+open Explore in
+#eval report (explore { maxWorkers := 3, idle := 2 } { depth := 15, maxAdds := 4, fireSpan := 2 } allProps)   -- 737855 states
 -/
